@@ -320,6 +320,8 @@ pub fn supported_algorithm(a: &SecurityAlgorithm) -> bool {
         || *a == SecurityAlgorithm::RSASHA256
         || *a == SecurityAlgorithm::RSASHA512
         || *a == SecurityAlgorithm::ECDSAP256SHA256
+        || *a == SecurityAlgorithm::ECDSAP384SHA384
+        || *a == SecurityAlgorithm::ED25519
 }
 
 //============ Test ==========================================================
